@@ -213,6 +213,7 @@ func runC17(c *eng.Ctx) {
 		t.Add(fn.Params[1])
 		t.Run()
 		checkTaintedAccesses(c, t, nil)
+		bceCrossCheck(c, t, []string{"./server/encryption/"})
 	}
 	c.Floor(4)
 
